@@ -275,4 +275,138 @@ def tag_region(mode, outer):
 
 TAG_REGION = [tag_region('complete', False), tag_region('complete', True), tag_region('partial', False)]
 
-CONTRACTS = INTEGER + NULL + [BOOLEAN_CREATE, RAW_INDEF] + LENGTH_REGION + TAG_REGION
+
+# -- value decoding region: a definite-length element consumes exactly `length` content octets ------------------
+def payload_decoder_model(ex, substrate, asn1Spec, tagSet, length, state, decodeFun, substrateFun, **options):
+    """assumed contract of any payload decoder (AbstractPayloadDecoder: 'allowed to consume as many bytes as
+    necessary'): consumes some octets, returns a value object or raises PyAsn1Error"""
+    if ex.choose(ex.fresh('payload.raises', BoolSort()), 'payload-raises'):
+        raise _Raise(ExcV('PyAsn1Error'))
+    pos = substrate.fields['pos']
+    n = ex.fresh('payload.consumed', I)
+    ex.assume(And(n >= 0, n <= Length(substrate.fields['data'].z) - pos))
+    substrate.fields['pos'] = pos + n
+    return Obj('Asn1Value', {'value': ex.fresh('payload.value', I)}, name='decodedValue')
+
+
+payload_decoder_model.is_generator_model = True
+
+
+def value_region(mode):
+    concrete = Obj('PayloadDecoder', {}, {}, name='concreteDecoder')
+    c = region(
+        'stDecodeValue', 'state is stDecodeValue', mode,
+        dict(tagSet=PConst(None), state=PConst(STATES['stDecodeValue']), length=PInt(), asn1Spec=PConst(None),
+             substrateFun=PConst(None), concreteDecoder=PConst(concrete), value=PConst(NOVALUE)),
+        properties=['C07', 'C01', 'C08'],
+        requires=['length >= -1'],
+        exit_ensures=[
+            # C07: exact consumption of a definite-length element (the bytesRead != length check)
+            ('definite-exact', 'length != -1 ==> substrate.pos == old(substrate.pos) + length'),
+            ('value-is-result', 'value is not noValue'),
+            ('stops', 'state == stStop')],
+        may_raise={'PyAsn1Error': True},
+        external=['definite-exact', 'value-is-result', 'stops'])
+    c.calls['concreteDecoder.valueDecoder'] = payload_decoder_model
+    c.calls['concreteDecoder.indefLenValueDecoder'] = payload_decoder_model
+    return c
+
+
+VALUE_REGION = [value_region('complete')]
+
+
+def eoo_region(mode):
+    from pyvc.core import lit_seq
+    c = region(
+        'allowEoo', 'allowEoo and self.supportIndefLength', mode,
+        dict(allowEoo=PConst(True)),
+        properties=['C07', 'C05'],
+        requires=['self.supportIndefLength', 'len(substrate.data) - substrate.pos >= 2'],
+        exit_ensures=[
+            # C07: looking for the end-of-octets marker consumes it if present and nothing otherwise
+            ('marker-consumed', '(%s == 0 and substrate.data[%s + 1] == 0) ==> (last_yield() is eoo.endOfOctets and '
+                                'substrate.pos == %s + 2)' % (D0, P0, P0)),
+            ('otherwise-position-restored', 'not (%s == 0 and substrate.data[%s + 1] == 0) ==> (substrate.pos == %s and '
+                                            'nyields() == 0)' % (D0, P0, P0))],
+        may_raise={'EndOfStreamError': True},
+        external=['marker-consumed', 'otherwise-position-restored'])
+    c.globals['EOO_SENTINEL'] = lit_seq([0, 0], 'bytes')
+    return c
+
+
+EOO_REGION = [eoo_region('complete'), eoo_region('partial')]
+
+OID_DEC = [payload(
+    'ObjectIdentifierPayloadDecoder', mode, properties=['C08', 'C01', 'C07'],
+    yield_ensures=[('consumed', CONSUMED),
+                   ('first-arc-split', 'last_yield().value[0] == 0 or last_yield().value[0] == 1 or last_yield().value[0] == 2')],
+    exit_ensures=[('one-result', 'nyields() == 1')],
+    # kind B (C08): nothing but library errors escapes -- in particular no IndexError from chunk[index] / oid[0]
+    may_raise={'PyAsn1Error': True},
+    loops={1: Loop(invariant=['index >= 0', 'index <= substrateLen', 'substrateLen == len(chunk)',
+                              'index > 0 ==> len(oid) > 0', 'isinstance(oid, tuple)'],
+                   variant='substrateLen - index'),
+           2: Loop(invariant=['index >= loop_entry(index)', 'index >= 1', 'index <= substrateLen',
+                              'substrateLen == len(chunk)', 'subId >= 0', 'nextSubId >= 0', 'nextSubId <= 255',
+                              'len(oid) == len(loop_entry(oid))'],
+                   variant='substrateLen - index + (1 if nextSubId >= 128 else 0)')},
+    external=['consumed', 'one-result']) for mode in ('complete',)]
+
+
+def fragment_model(ex, substrate, asn1Spec=None, tagSet=None, length=None, state=None, **kw):
+    """decodeFun called with the raw fragment collector: consumes one complete fragment TLV (>= 2 octets) and returns
+    its contents octets; may raise PyAsn1Error"""
+    if ex.choose(ex.fresh('fragment.raises', BoolSort()), 'fragment-raises'):
+        raise _Raise(ExcV('PyAsn1Error'))
+    pos = substrate.fields['pos']
+    rest = Length(substrate.fields['data'].z) - pos
+    n = ex.fresh('fragment.n', I)
+    ex.assume(And(n >= 2, n <= rest))
+    substrate.fields['pos'] = pos + n
+    z = ex.fresh('fragment.content', S)
+    ex.assume(inr(z))
+    return SeqV(z, 'bytes')
+
+
+fragment_model.is_generator_model = True
+
+OCTETS_DEC = [payload(
+    'OctetStringPayloadDecoder', 'complete', properties=['C15', 'C09', 'C07', 'C08'],
+    self_fields=dict(supportConstructedForm=PBool(), fragmentSpec=PConst(Obj('OctetString', {}, name='fragmentSpec')),
+                     substrateCollector=PConst(FnV(lambda ex, *a, **k: None, 'substrateCollector'))),
+    calls={'decodeFun': fragment_model},
+    yield_ensures=[
+        ('primitive-content', 'tagSet[0].tagFormat == 0 ==> (last_yield().value == %s and %s)' % (CONTENT, CONSUMED))],
+    exit_ensures=[
+        # C15: a codec that does not support the constructed form (DER) never returns a value for it
+        ('constructed-only-if-supported', 'tagSet[0].tagFormat == 0 or self.supportConstructedForm'),
+        ('one-result', 'nyields() == 1'),
+        ('constructed-covers-length', 'tagSet[0].tagFormat != 0 ==> substrate.pos - old(substrate.pos) >= length')],
+    may_raise={'PyAsn1Error': True},
+    loops={2: Loop(invariant=['substrate.pos >= original_position', 'isinstance(header, bytes)', 'X.inr(header)',
+                              'not value_yielded()', 'original_position == old(substrate.pos)'],
+                   havoc_fields=['substrate.pos'], variant='length - (substrate.pos - original_position)')},
+    external=['primitive-content', 'constructed-only-if-supported', 'one-result'])]
+
+
+def from_octet_string(ex, self, value, internalFormat=False, prepend=None, padding=0):
+    return Obj('SizedInteger', {'octets': value, 'padding': padding, 'prepend': prepend}, name='bits')
+
+
+BITS_DEC = [payload(
+    'BitStringPayloadDecoder', 'complete', properties=['C08', 'C10', 'C01'],
+    self_fields=dict(supportConstructedForm=PBool(),
+                     protoComponent=PConst(Obj('BitString', {}, {'fromOctetString': from_octet_string}, name='protoComponent')),
+                     substrateCollector=PConst(FnV(lambda ex, *a, **k: None, 'substrateCollector'))),
+    requires=['tagSet[0].tagFormat == 0'],
+    yield_ensures=[
+        # X.690 8.6.2: first contents octet = number of unused bits (0..7), zero if there are no further octets
+        ('unused-bits', 'last_yield().value.padding == %s and last_yield().value.padding <= 7' % D0),
+        ('bits', 'last_yield().value.octets == X.sub(substrate.data, %s + 1, %s + length)' % (P0, P0)),
+        ('no-unused-bits-without-bits', 'length == 1 ==> last_yield().value.padding == 0'),
+        ('consumed', CONSUMED)],
+    exit_ensures=[('one-result', 'nyields() == 1')],
+    may_raise={'PyAsn1Error': True},
+    external=['unused-bits', 'bits', 'no-unused-bits-without-bits', 'consumed', 'one-result'])]
+
+CONTRACTS = INTEGER + NULL + OID_DEC + OCTETS_DEC + BITS_DEC + [BOOLEAN_CREATE, RAW_INDEF] + LENGTH_REGION + TAG_REGION + VALUE_REGION + EOO_REGION
